@@ -380,8 +380,21 @@ Proof. unfold upper_roman. nce_tac. Qed.
 Lemma apply_numfn_nce f z : nce (apply_numfn f z).
 Proof. unfold apply_numfn, decimal, bullet. nce_tac. Qed.
 #[local] Hint Resolve apply_numfn_nce : nce.
+Lemma render_num_nce f z :
+  nce (match apply_numfn f z with Err ValueError => decimal z | r => r end).
+Proof.
+  pose proof (apply_numfn_nce f z) as H.
+  destruct (apply_numfn f z) as [b|x]; [exact H|].
+  destruct x; try exact H. exact I.
+Qed.
+#[local] Hint Resolve render_num_nce : nce.
 Lemma get_bullet_nce tbl fmt number : nce (get_bullet tbl fmt number).
-Proof. unfold get_bullet. nce_tac. Qed.
+Proof.
+  unfold get_bullet.
+  destruct fmt as [[a|] [b|]]; destruct number as [n|]; try exact I.
+  cbv zeta. apply nce_bind; [apply render_num_nce|].
+  intro x. apply nce_bind; [apply nce_of_opt; discriminate|]. intro y. exact I.
+Qed.
 #[local] Hint Resolve get_bullet_nce : nce.
 Lemma get_checkBox_entry_nce e ks : nce (get_checkBox_entry e ks).
 Proof. unfold get_checkBox_entry. nce_tac. Qed.
